@@ -41,9 +41,13 @@ pub struct KeyInfo {
     pub deadline: Option<u64>,
     /// value and flags of the last store generated for this key (re-stored now and then with another TTL / flags)
     pub last_store: Option<(Vec<u8>, u32)>,
+    /// clock reading when the last store for this key was generated
+    pub stored_at: Option<u64>,
 }
 
 pub struct GenState {
+    /// deadlines of delayed flushes generated so far (targets of the boundary-directed clock)
+    pub flush_deadlines: Vec<u64>,
     pub now: u64,
     pub keys: Vec<Vec<u8>>,
     pub info: HashMap<Vec<u8>, KeyInfo>,
@@ -144,7 +148,7 @@ pub fn flags(rng: &mut Rng) -> u32 {
 impl GenState {
     pub fn new(rng: &mut Rng, p: &Profile, item_limit: u32) -> GenState {
         let n = rng.range(p.keys.0, p.keys.1) as usize;
-        GenState { now: 0, keys: key_pool(rng, n), info: HashMap::new(), item_limit }
+        GenState { flush_deadlines: vec![], now: 0, keys: key_pool(rng, n), info: HashMap::new(), item_limit }
     }
 
     pub fn cas(&self, rng: &mut Rng, p: &Profile, key: &[u8]) -> u64 {
@@ -199,6 +203,7 @@ impl GenState {
                     _ => (value(rng, p, self.item_limit), flags(rng)),
                 };
                 self.info.entry(key.clone()).or_default().last_store = Some((v.clone(), fl));
+                self.info.entry(key.clone()).or_default().stored_at = Some(self.now);
                 wire::set_like(opc, &key, &v, fl, t, self.cas(rng, p, &key), opaque)
             }
             3 | 4 => {
@@ -237,6 +242,14 @@ impl GenState {
                     1 => Some(0),
                     _ => Some(*rng.pick(&[1u32, 2, 3, 5, 10, 100, 100, 0xffff_ffff, 0xffff_fffe, 0xffff_fff0, 0x8000_0000])),
                 };
+                // delay + age of some stored item = 2^32 exactly
+                let ages: Vec<u64> = self.info.values().filter_map(|i| i.stored_at).map(|t| self.now - t).filter(|a| *a >= 1 && *a < 1000).collect();
+                let d = if !ages.is_empty() && rng.chance(1, 5) { Some((0x1_0000_0000u64 - *rng.pick(&ages)) as u32) } else { d };
+                if let Some(dd) = d {
+                    if dd != 0 {
+                        self.flush_deadlines.push(self.now + dd as u64);
+                    }
+                }
                 wire::flush(q(op::FLUSH, op::FLUSHQ), d, opaque)
             }
             10 => {
@@ -248,7 +261,7 @@ impl GenState {
             }
             11 => {
                 // clock advance: boundary-directed when a deadline is known
-                let dl: Vec<u64> = self.info.values().filter_map(|i| i.deadline).filter(|d| *d + 1 >= self.now).collect();
+                let dl: Vec<u64> = self.info.values().filter_map(|i| i.deadline).chain(self.flush_deadlines.iter().cloned()).filter(|d| *d + 1 >= self.now).collect();
                 let t = if !dl.is_empty() && rng.chance(2, 3) {
                     let d = *rng.pick(&dl);
                     match rng.below(3) {
